@@ -284,6 +284,17 @@ def r15_6(chk, P):
             chk.assumed('R15.6', F.name, f'nan:{fld}', F.where(e), R15_6_NAN[fld])
 
 
+def r15_8(chk, P):
+    from rules import c03
+    chk.rule('R15.8', 'the requests that work on an existing set-up tolerate a cleared info: vorbis_encode_ctl and '
+             'vorbis_encode_setup_init (and every function they pass the info on to) are analysed with codec_setup == NULL on '
+             'entry (K4): no member access through the null pointer is reachable.  The one-step set-up calls leave the info '
+             'cleared when they fail; a control request or the final set-up step issued after such a failure must be answered '
+             'with an error code (same analysis as C03 R03.5)')
+    return c03.r03_5(common.Proxy(chk, 'R15.8'), P, rule='R15.8', roots=[('vorbis_encode_ctl', 0), ('vorbis_encode_setup_init', 0)],
+                     context='a one-step set-up call that failed has cleared the info; this request then dereferences NULL')
+
+
 def r15_7(chk, P):
     chk.rule('R15.7', 'a refused control request changes nothing: on every path of vorbis_encode_ctl that ends in a negative return '
              'code no field of the staged set-up (highlevel_encode_setup and its per-block records) has been stored '
@@ -311,6 +322,8 @@ def r15_7(chk, P):
 def run(chk, P):
     r15_7(chk, P)
     chk.floor('R15.7', 3)
+    r15_8(chk, P)
+    chk.floor('R15.8', 2)
     r15_2(chk, P)
     chk.floor('R15.2', 8)
     r15_3(chk, P)
